@@ -174,8 +174,43 @@ fn grid_schema(position: &str, name: &str) -> String {
     )
 }
 
+/// the pair grid: two look-alike names (differing only in case, underscores or word boundaries) at the same kind of
+/// position of one small fixed schema; the generator must either refuse the schema or produce a stub that compiles
+const PAIRS: &[(&str, &str)] = &[
+    ("Foo", "Foo_"), ("Foo", "_Foo"), ("_Foo", "Foo_"), ("Foo", "foo"), ("Foo", "FOO"), ("foo", "foo_"), ("foo", "_foo"), ("fooBar", "foo_bar"),
+    ("FooBar", "Foo_Bar"), ("fooBar", "FooBar"), ("Type", "Type_"), ("type", "type_"), ("Self", "Self_"), ("self", "self_"), ("X1", "X_1"),
+    ("A_B", "AB"), ("a_b", "a__b"), ("Foo1", "Foo_1"), ("foo", "Foo_"), ("HTTPServer", "HttpServer"), ("userID", "userId"),
+    ("user_id", "userId"), ("_x", "x_"), ("Foo_", "Foo__"), ("fooBAR", "fooBar"), ("r_type", "type"), ("Vertex", "Vertex_"), ("vertex", "Vertex"),
+];
+const PAIR_POSITIONS: [&str; 6] = ["object_types", "interfaces", "properties", "edges", "entry_points", "edge_parameters"];
+
+fn pair_schema(position: &str, a: &str, b: &str) -> String {
+    let pick = |pos: &str, plain_a: &str, plain_b: &str| {
+        if pos == position { (a.to_string(), b.to_string()) } else { (plain_a.to_string(), plain_b.to_string()) }
+    };
+    let (o1, o2) = pick("object_types", "Thing", "Other");
+    let (i1, i2) = pick("interfaces", "Named", "Tagged");
+    let (p1, p2) = pick("properties", "title", "label");
+    let (e1, e2) = pick("edges", "linked", "related");
+    let (s1, s2) = pick("entry_points", "Things", "Others");
+    let (q1, q2) = pick("edge_parameters", "limit", "offset");
+    format!(
+        "schema {{\n  query: RootSchemaQuery\n}}\n{DIRECTIVES}type RootSchemaQuery {{\n  {s1}(first: Int): [{o1}!]!\n  {s2}: [{o2}!]\n}}\n\
+         interface {i1} {{\n  {p1}: String\n}}\ninterface {i2} {{\n  {p2}: Int\n  {e2}: [{i1}!]\n}}\n\
+         type {o1} implements {i1} {{\n  {p1}: String\n  {p2}: Int!\n  {e1}({q1}: Int, {q2}: [String!]): [{o2}!]\n  {e2}: {i2}\n}}\n\
+         type {o2} implements {i2} {{\n  {p2}: Int\n  {p1}: [String!]\n  {e2}: [{i1}!]\n  {e1}: {o1}!\n}}\n"
+    )
+}
+
 fn grid_cases() -> Vec<(String, Vec<u8>, Case)> {
     let mut out = vec![];
+    for (pi, position) in PAIR_POSITIONS.iter().enumerate() {
+        for (ni, (a, b)) in PAIRS.iter().enumerate() {
+            let sdl = pair_schema(position, a, b);
+            let case = Case { sdl, keyword_names: (is_rust_keyword(a) || is_rust_keyword(b)) as usize, lookalike_names: true, parameterised_edges: 1, list_properties: 1 };
+            out.push((format!("grid:pair:{position}:{a}+{b}"), vec![0x80 | pi as u8, ni as u8], case));
+        }
+    }
     for (pi, position) in GRID_POSITIONS.iter().enumerate() {
         let pool: &[&str] = if pi < 2 { TYPE_POOL } else { FIELD_POOL };
         for (ni, name) in pool.iter().enumerate() {
@@ -189,6 +224,17 @@ fn grid_cases() -> Vec<(String, Vec<u8>, Case)> {
 
 fn grid_case_from(bytes: &[u8]) -> Option<Case> {
     let (pi, ni) = (*bytes.first()? as usize, *bytes.get(1)? as usize);
+    if pi & 0x80 != 0 {
+        let position = PAIR_POSITIONS.get(pi & 0x7f)?;
+        let (a, b) = PAIRS.get(ni)?;
+        return Some(Case {
+            sdl: pair_schema(position, a, b),
+            keyword_names: (is_rust_keyword(a) || is_rust_keyword(b)) as usize,
+            lookalike_names: true,
+            parameterised_edges: 1,
+            list_properties: 1,
+        });
+    }
     let position = GRID_POSITIONS.get(pi)?;
     let pool: &[&str] = if pi < 2 { TYPE_POOL } else { FIELD_POOL };
     let name = pool.get(ni)?;
